@@ -80,6 +80,13 @@ def make_batch(seed, n_traits, name, exclude=()):
         if len(cand) < 3:
             break
         members = grng.sample(cand, grng.randint(2, min(4, len(cand))))
+        if any(t.has_rettmp() for (_, t) in members):
+            # a member with a `: Send`/`: Sync` supertrait cannot share a group with borrowed
+            # wrapped returns (the group's container then holds a Cell): rejected at compile time
+            kept = [(m, t) for (m, t) in members if not t.supers]
+            members = kept if len(kept) >= 2 else [(m, t) for (m, t) in members if not t.has_rettmp()]
+            if len(members) < 2:
+                continue
         n_mand = grng.randint(0, min(2, len(members) - 1))
         nopt = len(members) - n_mand
         enabled = grng.getrandbits(nopt) | (1 << grng.randrange(nopt))
@@ -88,7 +95,7 @@ def make_batch(seed, n_traits, name, exclude=()):
         # aliases that make the visible (alias) order differ from the order of the traits' own names
         aliases = {}
         for oi in range(nopt):
-            if grng.random() < 0.45:
+            if grng.random() < 0.45 or members[n_mand + oi][1].generic:
                 tn = members[n_mand + oi][1].name
                 aliases[oi] = (grng.choice(["Aa", "Zz", "Mm"]) + tn + "As")
         groups.append((f"g{k}", emit.Group(f"Gp{k}", members, n_mand, enabled, aliases)))
